@@ -96,11 +96,13 @@ inline std::map<int64_t, int64_t> default_handle_table(const Schema& s, const Va
   return m;
 }
 inline std::vector<int64_t> gen_refs(Tape& t, size_t n) {
-  static const int64_t pool[] = {0, 1, 2, 63, 64, 127, 128, 255, 256, 32767, 32768, 65536, 2147483647ll, 2147483648ll, 1ll << 40, (1ll << 62) + 5, INT64_MAX};
+  // any int64 except -1 (the empty marker) is a reference a writer may hand out, negative ones included
+  static const int64_t pool[] = {0, 1, 2, 63, 64, 127, 128, 255, 256, 32767, 32768, 65536, 2147483647ll, 2147483648ll, 1ll << 40, (1ll << 62) + 5, INT64_MAX,
+                                 -2, -33, -64, -65, -129, -32769, -2147483649ll, -(1ll << 40), INT64_MIN};
   std::vector<int64_t> r; std::set<int64_t> used;
   for (size_t i = 0; i < n; i++) {
     int64_t x = (t.below(3) == 0) ? (int64_t)i : pool[t.below(sizeof pool / sizeof pool[0])];
-    while (used.count(x)) x = (x == INT64_MAX) ? 3 : x + 1;   // distinct, never -1
+    while (used.count(x) || x == -1) x = (x == INT64_MAX) ? 3 : x + 1;   // distinct, never -1
     used.insert(x); r.push_back(x);
   }
   return r;
